@@ -203,6 +203,87 @@ def run(ctx, pid):
     res.note("%s accessor layer: %d predicate/builder pairs, %d field getters named by rules/%s.py checked" % (rule, n_pairs, n_get, pid.lower()))
 
 
+def g_settings_handed_down(fx):
+    """{field: (ok, writes seen)} for field in settings, g_settings: _propagate_subcommand ORs self.g_settings into the child's field —
+    as `child.f = child.f | self.g_settings` (either operand order), `child.f |= ..`, or `child.f.insert(self.g_settings)`."""
+    ps = fx.body("clap_builder::builder::command::Command::_propagate_subcommand")
+    got = {}
+    for fld in ("settings", "g_settings"):
+        for i, s_ in writes_field(ps, fld):
+            pl_ = s_["place"]
+            if not any(isinstance(el, str) and el.startswith("." + fld + "@") for el in pl_[-1:]):
+                continue
+            if ps.local_name(pl_local(pl_)) == "self":
+                continue
+            e = expr(ps, s_["rv"]["op"]) if s_["rv"]["k"] == "use" else ""
+            got.setdefault(fld, []).append(strip_transparent(e))
+    out = {}
+    for fld in ("settings", "g_settings"):
+        es = got.get(fld, [])
+        okp = any(re.fullmatch(r"(bitor|BitOr)\(\w+\.%s,self\.g_settings\)|(bitor|BitOr)\(self\.g_settings,\w+\.%s\)" % (fld, fld), e) for e in es) or bool(
+            [c for c in ps.calls_to(r"AppFlags::insert$|BitOrAssign>?::bitor_assign$") if re.search(r"\.%s$" % fld, expr(ps, c.args[0])) and not expr(ps, c.args[0]).startswith("self.") and expr(ps, c.args[1]) == "self.g_settings"])
+        out[fld] = (okp, es)
+    return out
+
+
+def _bool_eval(b, atom_of_call, max_steps=200):
+    """Truth table of a small bool function over call atoms: atom_of_call(call) -> atom name or None.  {assignment: result|None}"""
+    import itertools
+    names = sorted(set(a for a in (atom_of_call(c) for c in b.calls()) if a))
+    out = {}
+    for vals in itertools.product((False, True), repeat=len(names)):
+        sig = dict(zip(names, vals)); env = {}; pc = 0; result = None
+
+        def opv(op):
+            if "int" in op:
+                return bool(op["int"])
+            l = op.get("cp", op.get("mv"))
+            return env.get(l) if isinstance(l, int) else None
+        for _ in range(max_steps):
+            bl = b.blocks[pc]
+            for s_ in bl["stmts"]:
+                if s_["k"] != "assign" or not isinstance(s_["place"], int):
+                    continue
+                rv = s_["rv"]
+                if rv["k"] == "use":
+                    env[s_["place"]] = opv(rv["op"])
+                elif rv["k"] == "unop" and rv.get("op") == "Not":
+                    v = opv(rv["a"]); env[s_["place"]] = (not v) if v is not None else None
+                elif rv["k"] == "binop" and rv.get("op") in ("BitOr", "BitAnd", "Eq", "Ne", "BitXor"):
+                    x, y = opv(rv["a"]), opv(rv["b"])
+                    env[s_["place"]] = None if x is None or y is None else {"BitOr": x or y, "BitAnd": x and y, "Eq": x == y, "Ne": x != y, "BitXor": x != y}[rv["op"]]
+                else:
+                    env[s_["place"]] = None
+            t = bl["term"]; k = t["k"]
+            if k == "goto" or k == "drop":
+                pc = t["target"]
+            elif k == "call":
+                c = Call(b, pc, t)
+                a = atom_of_call(c)
+                d = t.get("dest")
+                if isinstance(d, int):
+                    env[d] = sig[a] if a else None
+                if t.get("target") is None:
+                    break
+                pc = t["target"]
+            elif k == "switch":
+                v = opv(t["op"])
+                if v is None:
+                    break
+                nxt = t["otherwise"]
+                for (val, tgt) in t["targets"]:
+                    if int(v) == val:
+                        nxt = tgt
+                pc = nxt
+            elif k == "return":
+                result = env.get(0)
+                break
+            else:
+                break
+        out[vals] = result
+    return names, out
+
+
 def _storage(fx, res, rule):
     spec = [
         ("clap_builder::builder::arg::Arg::setting", [("ArgFlags::set", "self.settings")]),
@@ -222,20 +303,7 @@ def _storage(fx, res, rule):
     # propagation of the global word: _propagate_subcommand gives every child `settings |= parent.g_settings` AND `g_settings |= parent.g_settings`
     # (the second is what the child hands to ITS children: without it a global setting stops at depth 1)
     ps = fx.body("clap_builder::builder::command::Command::_propagate_subcommand")
-    got = {}
-    for fld in ("settings", "g_settings"):
-        for i, s_ in writes_field(ps, fld):
-            pl_ = s_["place"]
-            if not any(isinstance(el, str) and el.startswith("." + fld + "@") for el in pl_[-1:]):
-                continue
-            if ps.local_name(pl_local(pl_)) == "self":
-                continue
-            e = expr(ps, s_["rv"]["op"]) if s_["rv"]["k"] == "use" else ""
-            got.setdefault(fld, []).append(strip_transparent(e))
-    for fld in ("settings", "g_settings"):
-        es = got.get(fld, [])
-        okp = any(re.fullmatch(r"(bitor|BitOr)\(\w+\.%s,self\.g_settings\)|(bitor|BitOr)\(self\.g_settings,\w+\.%s\)" % (fld, fld), e) for e in es) or bool(
-            [c for c in ps.calls_to(r"AppFlags::insert$|BitOrAssign>?::bitor_assign$") if re.search(r"\.%s$" % fld, expr(ps, c.args[0])) and not expr(ps, c.args[0]).startswith("self.") and expr(ps, c.args[1]) == "self.g_settings"])
+    for fld, (okp, es) in g_settings_handed_down(fx).items():
         res.check(okp, rule, "storage|propagate|child." + fld, ps.where(), "_propagate_subcommand: child.%s |= self.g_settings" % fld,
                   "_propagate_subcommand no longer merges the parent's g_settings into the child's `%s` (writes seen: %s): %s" % (fld, es[:3],
                       "a global setting stops applying from the second subcommand level on" if fld == "g_settings" else "global settings no longer reach subcommands"))
@@ -247,24 +315,14 @@ def _storage(fx, res, rule):
     p2 = b.local_name(2) or "s"
     recvs = sorted(expr(b, c.args[0]) for c in cs if expr(b, c.args[1]) == p2)
     # value: true if either word has it — the second read sits on the false edge of the first, or the two are or-ed
-    # value: true if either word has it.  Accepted shapes: `a || b` lowered to (first read; on its false edge the second read is the
-    # result; on its true edge the constant true), or BitOr of both reads
-    ok = recvs == ["self.g_settings", "self.settings"]
-    tb = None
-    if ok:
-        e0 = expr(b, 0)
-        if re.fullmatch(r"BitOr\(is_set\(self\.(g_)?settings,\w+\),is_set\(self\.(g_)?settings,\w+\)\)", e0):
-            pass
-        else:
-            defs = b.def_sites(0)
-            calls_def = [d[3] for d in defs if not isinstance(d[3], dict)]
-            consts = [(d[0], op_int(d[3]["op"])) for d in defs if isinstance(d[3], dict) and d[3]["k"] == "use" and op_int(d[3]["op"]) is not None]
-            others = [d for d in defs if isinstance(d[3], dict) and not (d[3]["k"] == "use" and op_int(d[3]["op"]) is not None)]
-            first = [c for c in cs if c not in calls_def]
-            ok = (len(calls_def) == 1 and len(first) == 1 and not others and len(consts) == 1 and consts[0][1] == 1
-                  and any(g.startswith("F:is_set(") for g in guard_strs(b, calls_def[0].bb))
-                  and any(g.startswith("T:is_set(") for g in guard_strs(b, consts[0][0])))
-            tb = (e0, [guard_strs(b, c.bb) for c in cs], consts)
+    # value: true iff either word has it — decided as a truth table over the two reads (any lowering: short-circuit, eager `|`, lets)
+    def atom(c):
+        if re.search(r"AppFlags::is_set$", c.callee_q or "") and expr(b, c.args[1]) == p2:
+            r_ = expr(b, c.args[0])
+            return {"self.settings": "S", "self.g_settings": "G"}.get(r_)
+        return None
+    names, tb = _bool_eval(b, atom)
+    ok = recvs == ["self.g_settings", "self.settings"] and names == ["G", "S"] and all(val == (k[0] or k[1]) for k, val in tb.items())
     res.check(ok, rule, "storage|Command::is_set", b.where(), "Command::is_set = settings.is_set(s) || g_settings.is_set(s)",
               "Command::is_set is not the disjunction of both flag words for its parameter (reads %s, table %s)" % (recvs, tb))
     for flags, enum in (("arg_settings::ArgFlags", "arg_settings::ArgSettings"), ("app_settings::AppFlags", "app_settings::AppSettings")):
@@ -287,7 +345,7 @@ def _storage(fx, res, rule):
         w = word_writes(un)
         res.check(len(w) == 1 and w[0][0] == "BitAnd" and re.fullmatch(r"Not\(bit\(\w+\)\)", w[0][2]) is not None, rule, "storage|%s::unset" % fl, un.where(), "unset: word &= !bit(s)", "%s::unset is %s, not `word &= !bit(setting)`" % (fl, w))
         e = expr(isb, 0)
-        res.check(re.fullmatch(r"Ne\(BitAnd\(self\.0,bit\(\w+\)\),0\)", e) is not None, rule, "storage|%s::is_set" % fl, isb.where(), "is_set: word & bit(s) != 0", "%s::is_set is %s, not `word & bit(setting) != 0`" % (fl, e[:100]))
+        res.check(re.fullmatch(r"Ne\(BitAnd\(self\.0,bit\(\w+\)\),0\)|Eq\(BitAnd\(self\.0,(bit\(\w+\))\),\1\)|Ne\(0,BitAnd\(self\.0,bit\(\w+\)\)\)|Ne\(BitAnd\(bit\(\w+\),self\.0\),0\)", e) is not None, rule, "storage|%s::is_set" % fl, isb.where(), "is_set: word & bit(s) != 0", "%s::is_set is %s, not `word & bit(setting) != 0`" % (fl, e[:100]))
         e = expr(bit, 0)
         res.check(re.fullmatch(r"Shl\(1,(Cast\()?discr\(self\)\)?( as \w+)?\)?", e) is not None or re.fullmatch(r"Shl\(1,[^,]*discr\(self\)[^,]*\)", e) is not None, rule, "storage|%s::bit" % enum.split("::")[1], bit.where(), "bit = 1 << discriminant",
                   "%s::bit is %s, not `1 << (self as u8)`: two settings can share a bit" % (enum.split("::")[1], e[:100]))
